@@ -601,6 +601,7 @@ def call_lua_sandbox(
                 name, first_arg = name.split(":", 1)
                 new_args.insert(0, first_arg)
             name = ctx._canonicalize_parserfn_name(name)
+            name = ctx.parser_function_aliases.get(name, name)
             if name not in PARSER_FUNCTIONS:
                 ctx.debug(
                     "lua frame callParserFunction() undefined "
